@@ -1,11 +1,14 @@
 #!/bin/bash
-# Runs every registered check at the given tier (default quick); prints one line per check.
-TIER="${1:-quick}"
+# Runs every registered check (or the IDs given after the tier) at the given tier (default quick);
+# prints one line per check.
+TIER="${1:-quick}"; shift
+IDS="$*"
 VERIF="$(cd "$(dirname "$0")/.." && pwd)"
 cd "$VERIF" || exit 2
 mkdir -p scratch
 rc=0
-for p in $(python3 -c "import json;print(' '.join(c['property_id'] for c in json.load(open('MANIFEST.json'))['checks']))"); do
+[ -n "$IDS" ] || IDS=$(python3 -c "import json;print(' '.join(c['property_id'] for c in json.load(open('MANIFEST.json'))['checks']))")
+for p in $IDS; do
   s=$(date +%s)
   ./checks/run.sh "$p" "$TIER" > "scratch/${TIER}_$p.log" 2>&1; e=$?
   echo "$p exit=$e $(( $(date +%s) - s ))s $(grep -c KNOWN-FINDING scratch/${TIER}_$p.log) known"
